@@ -14,8 +14,6 @@ immutable MembershipProof.Exists, MembershipProof.HyperProof, MembershipProof.Hi
 func MembershipProof.DigestVerify
   props C02 C12
   requires snapshot != nil
-  requires len(digest) < 8192
-  requires p.HyperProof != nil ==> len(p.HyperProof.Value) <= len(digest) || len(p.HyperProof.Value) >= 8 * len(digest)
   modifies everything
   ensures C02/accept-implies-exists-and-ordered: result ==> p.Exists && p.ActualVersion <= p.QueryVersion
   ensures C02/accept-implies-parts: result ==> p.HyperProof != nil && p.HistoryProof != nil
